@@ -1,0 +1,100 @@
+//go:build verif
+
+// Verification hooks (read-only): compiled only with -tags verif.
+
+package obfs4
+
+import (
+	"bytes"
+	"errors"
+	"fmt"
+	"net"
+
+	"gitlab.com/yawning/obfs4.git/common/probdist"
+	"gitlab.com/yawning/obfs4.git/transports/obfs4/framing"
+)
+
+// VerifPadBurst calls the real padBurst on a burst buffer that already holds `tail` bytes,
+// with a fixed-key frame encoder, and reports the lengths of the frames it appended (obtained
+// by running the matching frame decoder over the appended bytes) and the resulting total
+// buffer length.  A panic inside padBurst/makePacket is recovered and returned as err.
+func VerifPadBurst(tail, target int) (frames []int, total int, err error) {
+	var key [framing.KeyLength]byte
+	for i := range key {
+		key[i] = byte(i)
+	}
+	conn := &obfs4Conn{encoder: framing.NewEncoder(key[:])}
+	burst := bytes.NewBuffer(make([]byte, tail))
+
+	defer func() {
+		if p := recover(); p != nil {
+			err = fmt.Errorf("panic: %v", p)
+		}
+	}()
+	if err = conn.padBurst(burst, target); err != nil {
+		return nil, burst.Len(), err
+	}
+	total = burst.Len()
+
+	appended := bytes.NewBuffer(burst.Bytes()[tail:])
+	dec := framing.NewDecoder(key[:])
+	var decoded [framing.MaximumFramePayloadLength]byte
+	for appended.Len() > 0 {
+		n, derr := dec.Decode(decoded[:], appended)
+		if derr != nil {
+			return frames, total, fmt.Errorf("appended bytes do not decode: %w", derr)
+		}
+		frames = append(frames, n+framing.FrameOverhead)
+	}
+	return frames, total, nil
+}
+
+// VerifDist is a copy of the tables of one of a connection's distributions.
+type VerifDist struct {
+	Min, Max int
+	Biased   bool
+	Values   []int
+	Weights  []float64
+	Alias    []int
+	Prob     []float64
+}
+
+func verifDist(w *probdist.WeightedDist) *VerifDist {
+	if w == nil {
+		return nil
+	}
+	d := &VerifDist{}
+	d.Min, d.Max, d.Biased = probdist.VerifBounds(w)
+	d.Values, d.Weights, d.Alias, d.Prob = probdist.VerifTables(w)
+	return d
+}
+
+var errNotObfs4 = errors.New("not an obfs4 connection")
+
+// VerifLenDist returns the tables of the length distribution of a live obfs4 connection.
+func VerifLenDist(c net.Conn) (*VerifDist, error) {
+	conn, ok := c.(*obfs4Conn)
+	if !ok {
+		return nil, errNotObfs4
+	}
+	return verifDist(conn.lenDist), nil
+}
+
+// VerifIatDist returns the tables of the inter-arrival-time distribution (nil if the
+// connection has none).
+func VerifIatDist(c net.Conn) (*VerifDist, error) {
+	conn, ok := c.(*obfs4Conn)
+	if !ok {
+		return nil, errNotObfs4
+	}
+	return verifDist(conn.iatDist), nil
+}
+
+// VerifIatMode returns the connection's IAT mode and whether it is the server side.
+func VerifIatMode(c net.Conn) (iatMode int, isServer bool, err error) {
+	conn, ok := c.(*obfs4Conn)
+	if !ok {
+		return 0, false, errNotObfs4
+	}
+	return conn.iatMode, conn.isServer, nil
+}
